@@ -58,6 +58,7 @@ void     nixsym_trace_str(const char *, const char *) {}
 void     nixsym_finding(const char *, bool) {}
 void     nixsym_print(const char *m) { fprintf(stderr, "%s\n", m); }
 uint64_t nixsym_concretize_u64(const char *, uint64_t v, uint32_t) { return v; }
+uint32_t nixsym_count_values(uint64_t, uint32_t mx) { return mx; }   // natively a value is just a value: dependence on an input cannot be observed in one run
 
 // extension API of the HDF5 model, answered from the real file system / the real libhdf5
 int h5m_file_exists(const char *name) { struct stat st; return stat(name, &st) == 0; }
